@@ -562,6 +562,7 @@ THEOREMS = [
     "BluetoeModel.AttWriteQueue.never_oob",
     "BluetoeModel.AttWriteQueue.queue_representation",
     "BluetoeModel.AttWriteQueue.released_after_wf",
+    "BluetoeModel.AttWriteQueue.attr_clause_exact",
     "BluetoeModel.Cccd.cccd_position_in_array",
     "BluetoeModel.Cccd.access_in_bounds",
 ]
